@@ -65,13 +65,7 @@ var subC16 = core.NewSub("C16/sqrtratio", func(w *core.Worker, c sqrtCase) *core
 	if got[0]&1 != 0 {
 		return core.Failf("root is negative (odd)")
 	}
-	if c.Alias != 1 && c.Alias != 3 && alpha.LimbsOf(&u) != c.U.L {
-		return core.Failf("SqrtRatio modified u")
-	}
-	if c.Alias != 2 && alpha.LimbsOf(&v) != c.V.L {
-		return core.Failf("SqrtRatio modified v")
-	}
-	return nil
+	return nil // (u and v staying untouched is C11's business)
 })
 
 func init() { register("C16", "exploration", runC16) }
